@@ -228,3 +228,16 @@ Proof.
   - unfold read_number. rewrite Z.eqb_refl. cbn [fst snd]. split; [reflexivity|exact Hres].
   - rewrite Hb, read_number_pos by exact Hx. cbn [fst snd]. rewrite <- Hb. split; [reflexivity|exact Hres].
 Qed.
+
+Theorem float_denotes_proof :
+  forall sign digits dp, dvalue_ok_float (DFinite sign digits dp) = true ->
+  denotes (to_shortest_chars (DFinite sign digits dp)) sign digits dp.
+Proof.
+  intros sign digits dp H. simpl in H. apply andb_true_iff in H. destruct H as [H H2]. apply andb_true_iff in H. destruct H as [H0 H1].
+  apply (to_shortest_denotes_proof 9 sign digits dp H0). split; [apply Z.leb_le in H1|apply Z.leb_le in H2]; lia.
+Qed.
+
+Theorem double_denotes_proof :
+  forall sign digits dp, digits_ok kBase10MaximalLength digits = true -> -323 <= dp <= 309 ->
+  denotes (to_shortest_chars (DFinite sign digits dp)) sign digits dp.
+Proof. intros sign digits dp. exact (to_shortest_denotes_proof kBase10MaximalLength sign digits dp). Qed.
